@@ -334,6 +334,7 @@ def main():
     states = runs = events = 0
     errors = []
     samples = []
+    drift = []
     for g in groups:
         gkey = "%s-%s-%s-%s-%s-%d" % (g, args.tier, repo_h, mach_h, kf_h, args.seed)
         gdir = os.path.join(CACHE, "corpus", gkey)
@@ -356,7 +357,8 @@ def main():
         if os.path.exists(meta_p):
             meta = json.load(open(meta_p))
             errors += [{"harness": m} for m in meta.get("tool_errors", [])]
-            samples += meta.get("samples", [])[:2]
+            samples += meta.get("samples", [])[:3]
+            drift += meta.get("drift", [])
     if errors:
         print("TOOL-ERROR: trace validation did not complete:", json.dumps(errors)[:3000])
         sys.exit(2)
@@ -393,6 +395,8 @@ def main():
             n = len(by_kf.get(f["id"], []))
             print("KNOWN-FINDING: property=%s %s %s (observed %d time(s) in this run)" % (prop, f["id"], f["what"], n))
 
+    for d in drift[:5]:
+        print("DRIFT (specification and code disagree on the projected client state; not a verdict): %s" % json.dumps(d)[:400])
     if mc.get("tool_error"):
         print("TOOL-ERROR: model checking:", mc["tool_error"][:2000])
         sys.exit(2)
@@ -416,6 +420,7 @@ def main():
             "trace_events": events,
             "corpus_groups": groups,
             "known_finding_hits": {k: len(v) for k, v in by_kf.items()},
+            "conformance_drift": drift[:10],
         },
         "assumptions": corpus_mod.ASSUMPTIONS,
         "wall_s": round(time.time() - t0, 2),
